@@ -42,6 +42,9 @@ def chain_ids(n, length):
         return ([base[i % 62] + base[i % 62] for i in range(n - 1)] + ["A"])[-n:] if n > 1 else ["A"]
     if length == 1:
         return [base[i] for i in range(n)]
+    if length == "runs":
+        # two-character ids that are runs of the alphabet a renaming draws from (AB, BC, Za, z0, 12 ...): still too long for a PDB file
+        return [base[(7 * i) % 61] + base[(7 * i) % 61 + 1] for i in range(n)]
     out = []
     for i in range(n):
         out.append((base[i % 62] + base[(i // 62) % 62] + "XY")[:length])
@@ -49,7 +52,11 @@ def chain_ids(n, length):
 
 
 def make_table(nch, idlen, resmode, serial0, icodes, models, apr, extras=False):
-    if isinstance(serial0, str):
+    if isinstance(serial0, str) and serial0.startswith("m1end"):
+        # the last atom of the FIRST model carries exactly this serial: with two models, model 1 is within the limit and model 2 beyond it
+        n = len(make_table(nch, idlen, resmode, 1, icodes, 1, apr))
+        serial0 = int(serial0[5:]) - n + 1
+    elif isinstance(serial0, str):
         # 'end99999' / 'end100000': the LAST atom carries exactly this serial (the limit itself, and the first number beyond it)
         n = len(make_table(nch, idlen, resmode, 1, icodes, models, apr))
         serial0 = int(serial0[3:]) - n + 1
@@ -84,10 +91,12 @@ def cases(tier):
     yield dict(big="interleaved-99990-atoms-12-blocks", fmt="mmCIF")
     if tier != "quick":
         yield dict(big="interleaved-99987-atoms-12-blocks", fmt="mmCIF")
-    for nch, idlen, resmode, serial0, icodes, models, apr in itertools.product((1, 2, 3, 62, 63), (1, 2, 4, "mix-first", "mix-last"), ("small", "9999", "10000", "12345", "negative"),
+    for nch, idlen, resmode, serial0, icodes, models, apr in itertools.product((1, 2, 3, 62, 63), (1, 2, 4, "mix-first", "mix-last", "runs"), ("small", "9999", "10000", "12345", "negative"),
                                                                              (1, 99990, 100000, "end99999", "end100000"), (False, True, "last-chain", "first-chain"), (1, 2), (1, 2)):
       for extras in (False, True):
         if isinstance(icodes, str) and (nch not in (2, 3) or extras or isinstance(serial0, str) or apr == 2):
+            continue
+        if idlen == "runs" and (nch >= 62 or extras or isinstance(serial0, str) or isinstance(icodes, str) or apr == 2 or models == 2):
             continue
         if isinstance(serial0, str) and (nch >= 62 or extras or apr == 2):
             continue
@@ -104,6 +113,7 @@ def cases(tier):
         if idlen in (1, 2) and nch <= 3 and not extras:
             # the same atoms with label ids that differ from the author ids (two-character label_asym_id, own label_seq_id): only the author ids are written to PDB
             yield dict(nch=nch, idlen=idlen, resmode=resmode, serial0=serial0, icodes=icodes, models=models, apr=apr, extras=extras, fmt="mmCIF", labels=True)
+    yield dict(special="pdb-blank-chain-segid", fmt="PDB")
     yield dict(big="chain-10000-residues", fmt="mmCIF")
     yield dict(big="chain-10002-residues-with-icodes", fmt="mmCIF")
     if tier != "quick":
@@ -183,6 +193,9 @@ def tool_cases(tier):
             base = dict(nch=nch, idlen=idlen, resmode="small", serial0=1, icodes=False, models=1, apr=1, extras=False, fmt="mmCIF")
             yield dict(base, tool="splitter")
             yield dict(base, tool="unifier")
+    # two models of which the first fits on its own (its last atom is serial 99999) and the second does not: every model is fitted by itself
+    for nch, idlen, icodes in itertools.product((1, 2), (1, 2), (False, True)):
+        yield dict(nch=nch, idlen=idlen, resmode="small", serial0="m1end99999", icodes=icodes, models=2, apr=2, extras=False, fmt="mmCIF", tool="splitter")
     yield dict(big="chain-10000-residues", fmt="mmCIF", tool="splitter")
     if tier != "quick":
         yield dict(big="chain-10000-residues", fmt="mmCIF", tool="unifier")  # ~1 min: the unifier walks every residue
@@ -266,7 +279,14 @@ def run_case(case):
         from mc.props.c09 import df_view as _dv
 
         return run_unifier_multi(case, _p2, _dv)
-    if "big" in case:
+    if case.get("special") == "pdb-blank-chain-segid":
+        # CHARMM-style PDB text: the chain column is blank, columns 73-76 carry a segment identifier. The table has ONE chain (blank) and fits.
+        t = make_table(2, 1, "small", 1, False, 1, 2)
+        for k, a in enumerate(t):
+            a["segid"] = "RNA" + a["chain"]
+            a["resseq"] += 10 * (a["chain"] != "A")
+            a["chain"] = " "
+    elif "big" in case:
         t = big_table(case["big"])
     elif "composite" in case:
         t, nA = composite(*case["composite"])
@@ -319,6 +339,9 @@ def run_case(case):
             out.append(viol("fit:already-fits-raises:" + f[1], "fit_to_pdb raised %s on a table that already fits" % f[2]))
         elif f[1] is not df:
             out.append(viol("fit:already-fits-not-same-object", "a fitting table was not returned unchanged", None, None))
+        elif case.get("special") or case["fmt"] == "PDB":
+            # 'the fitted table can be written as PDB and read back to the same structure' - also when nothing had to be renamed
+            check_fitted(t, f[1], parser_v2, df_view, out)
     elif not feasible:
         outcome = "refusal:" + why
         if f[0] == "ok":
@@ -365,7 +388,7 @@ def check_fitted(t, fitted, parser_v2, df_view, out):
         if gs is None or gs > 99999 or gs < 1:
             out.append(viol("fitted:serial-limit", "serial %r outside PDB limits" % gs))
             return
-        if gc is None or len(gc) != 1:
+        if (gc is None or len(gc) != 1) and not (gc is None and w[5] is None):  # a blank chain identifier stays blank
             out.append(viol("fitted:chain-limit", "chain id %r is not one character" % gc))
             return
         if gr is None or gr > 9999:
